@@ -19,6 +19,19 @@ def free_all(sc, binary, tier):
     return sub, files, counts, out
 
 
+def free_join_limit(sc, tier):
+    """free-running join / unite / v1 join / limit stress (harness/freeh), -race"""
+    binary = os.path.join(sc, "freeh.test")
+    build_test("freeh", binary, race=True, tags="")
+    rc, out, wall = run_test(binary, "TestFree", env=dict(FREE_RUNS=80 if tier == "quick" else 3000), timeout=1500)
+    runs = sum(int(x) for x in re.findall(r"FREE(?:JOIN|UNITE|JOINV1|LIMIT) runs=(\d+)", out))
+    if runs == 0:
+        raise Inconclusive("freeh driver died\n" + out[-3000:])
+    leaks = re.findall(r"LEAK ([^\n]*)(?:\n(?!\s*---).*){0,12}", out)
+    content = [l.strip() for l in out.splitlines() if ("delivered" in l or "got " in l) and "free_test.go" in l]
+    return dict(runs=runs, out=out, leaks=re.findall(r"LEAK [^\n]*", out), content_errors=content[:5])
+
+
 def race_reports(out):
     reps = []
     for m in re.finditer(r"WARNING: DATA RACE\n(.*?)\n==================", out, re.S):
@@ -87,6 +100,10 @@ def check_C19(tier):
                 tr[0].get("cont"), tr[0].get("cfg") if not isinstance(tr[0].get("cfg"), dict) else tr[0]["cfg"].get("name"), tr[0].get("path"), prio.summarize("C19", tr)),
                 dict(kind="leak", header={k: tr[0].get(k) for k in ("cont", "cfg", "path", "seed", "steps")}, observed=tr[:300]))
         others = other_engines("leaks", v, sc, tier)
+        fj = free_join_limit(sc, tier)
+        for l in fj["leaks"][:3]:
+            v.violation("C19: " + l[:300], dict(kind="leak-free-join-limit", seed=seed(), report=l))
+        v.cov["join_unite_limit_free_runs"] = fj["runs"]
         term = [t for t in traces if prio.has(t, "EC", "StopRet", "GraceRet")]
         kinds = {}
         for t in term:
@@ -125,6 +142,10 @@ def check_C20(tier):
             total_runs += 100 if tier == "quick" else 1500
             if rec["races"]:
                 reports.append("race during gated v1 runs of %s" % c1["name"])
+        fj = free_join_limit(sc, tier)
+        reports += race_reports(fj["out"])
+        total_runs += fj["runs"]
+        counts["join_unite_limit"] = fj["runs"]
         others = other_engines("races", v, sc, tier)
         for name, o in others:
             reports += o.get("reports", [])
